@@ -106,8 +106,95 @@ static void w_tagset(W& w, const char* key, Set<Tag>& s) {
     w.end_arr();
 }
 
+// C17: a file with ONE long record (a polygon of n vertices written unfractured) followed by more
+// content; the summary readers against the full reader, by counts (the bytes are not logged)
+static void do_biginfo(const J& g, int64_t idx, FILE* out) {
+    std::string fn = tmpfile_name("bi");
+    int64_t n = g["n"].i();
+    Library lib = {};
+    lib.init("BIG", 1e-6, 1e-9);
+    Cell* c1 = (Cell*)allocate_clear(sizeof(Cell));
+    c1->name = copy_string("LONG", NULL);
+    Cell* c2 = (Cell*)allocate_clear(sizeof(Cell));
+    c2->name = copy_string("AFTER", NULL);
+    lib.cell_array.append(c1);
+    lib.cell_array.append(c2);
+    Polygon* p = (Polygon*)allocate_clear(sizeof(Polygon));
+    p->tag = make_tag(5, 1);
+    for (int64_t i = 0; i < n; i++) {
+        double a = 2 * M_PI * (double)i / (double)n;
+        p->point_array.append(Vec2{1000 * cos(a), 1000 * sin(a)});
+    }
+    c1->polygon_array.append(p);
+    Polygon* q = (Polygon*)allocate_clear(sizeof(Polygon));
+    q->tag = make_tag(9, 2);
+    q->point_array.append(Vec2{0, 0});
+    q->point_array.append(Vec2{2, 0});
+    q->point_array.append(Vec2{0, 3});
+    c1->polygon_array.append(q);
+    Label* l = (Label*)allocate_clear(sizeof(Label));
+    l->init("after");
+    l->tag = make_tag(11, 3);
+    l->magnification = 1;
+    c2->label_array.append(l);
+    tm t0 = {};
+    t0.tm_year = 100;
+    t0.tm_mday = 1;
+    ErrorCode we = lib.write_gds(fn.c_str(), 0, &t0);
+    W w;
+    w.begin_obj().ks("e", "biginfo").kv("i", idx).kv("n", n).kv("werr", (int64_t)we);
+    int fd0 = open_fd_count();
+    ErrorCode err = ErrorCode::NoError;
+    Library full = read_gds(fn.c_str(), 0, 0, NULL, &err);
+    int64_t fp = 0, fl = 0, fmaxv = 0;
+    for (uint64_t i = 0; i < full.cell_array.count; i++) {
+        fp += (int64_t)full.cell_array[i]->polygon_array.count;
+        fl += (int64_t)full.cell_array[i]->label_array.count;
+        for (uint64_t k = 0; k < full.cell_array[i]->polygon_array.count; k++)
+            fmaxv = std::max(fmaxv, (int64_t)full.cell_array[i]->polygon_array[k]->point_array.count);
+    }
+    w.key("full").begin_obj().kv("err", (int64_t)err).kv("ncell", (int64_t)full.cell_array.count)
+        .kv("npoly", fp).kv("nlabel", fl).kv("maxv", fmaxv).end_obj();
+    full.free_all();
+    {
+        LibraryInfo info = {};
+        ErrorCode e = gds_info(fn.c_str(), info);
+        w.key("info").begin_obj().kv("err", (int64_t)e).kv("ncell", (int64_t)info.cell_names.count);
+        w.kv("npoly", (int64_t)info.num_polygons).kv("nlabel", (int64_t)info.num_labels);
+        w_tagset(w, "stags", info.shape_tags);
+        w_tagset(w, "ltags", info.label_tags);
+        w.end_obj();
+        info.clear();
+    }
+    {
+        double unit = 0, prec = 0;
+        ErrorCode e = gds_units(fn.c_str(), unit, prec);
+        ErrorCode te = ErrorCode::NoError;
+        tm t = gds_timestamp(fn.c_str(), NULL, &te);
+        w.kv("units_err", (int64_t)e).kv("ts_err", (int64_t)te).kv("ts_year", (int64_t)t.tm_year + 1900);
+        ErrorCode re = ErrorCode::NoError;
+        Map<RawCell*> raws = read_rawcells(fn.c_str(), &re);
+        w.kv("raw_err", (int64_t)re).kv("nraw", (int64_t)raws.count);
+        for (MapItem<RawCell*>* it = raws.next(NULL); it; it = raws.next(it)) {
+            it->value->clear();
+            free_allocation(it->value);
+        }
+        raws.clear();
+    }
+    w.kv("fd", open_fd_count() - fd0);
+    w.end_obj();
+    fputs(w.s.c_str(), out);
+    fputc('\n', out);
+    lib.free_all();
+    unlink(fn.c_str());
+}
+
 // C17: every partial / alternative reader on one file
 static void do_partial(const J& g, int64_t idx, FILE* out) {
+    if (g.has("k") && g["k"].s() == "biginfo") {
+        do_biginfo(g, idx, out);
+        return;
+    }
     std::string fn = tmpfile_name("pt");
     tm t0 = {};
     if (g.has("bytes")) {
